@@ -860,6 +860,30 @@ func ruleRunningEnd(c *Ctx, rule string) {
 					found = true
 				}
 			}
+			// the struct that is updated must be the one the span list holds: an element
+			// address, or a pointer that is itself appended to a list of pointers
+			aliased := true
+			why := ""
+			switch base := fa.X.(type) {
+			case *ssa.IndexAddr:
+			case *ssa.Alloc:
+				// a local struct value: is it (only) copied by value into the list?
+				if !base.Heap {
+					aliased, why = false, "a local copy"
+				} else {
+					// heap cell created by &T{...}/new: fine if the pointer itself is appended
+					aliased = pointerAppended(base)
+					why = "a heap cell whose pointer is never appended to a list"
+				}
+			default:
+				// a loop-carried pointer: one of its sources must be appended as a pointer or be an element address
+				aliased = pointerSourceHeld(fa.X, 0)
+				why = "a pointer that is neither an element address nor appended to the span list"
+			}
+			if found && !aliased {
+				c.bad(rule, key, st.Pos(), "the running end is updated in "+why+": the span already appended to the list keeps its old end, so positions added by a later overlapping feature that ends beyond it are dropped from the stitched result")
+				continue
+			}
 			if found {
 				c.ok(rule, key, st.Pos(), "the extend-or-open test compares against the running end that this branch updates")
 			} else {
@@ -960,4 +984,394 @@ func ruleBijection(c *Ctx, rule string) {
 		}
 	}
 	_ = n
+}
+
+// ---- taintsize: numbers parsed from input never size an allocation unchecked -----
+
+// ruleTaintSize: an integer parsed from the input text (strconv.* results and
+// the values the package's own parse helpers return) reaches a make() size, a
+// slice bound or an index only after it was bounded below and above by
+// dominating comparisons. Otherwise a negative or huge column value makes
+// the runtime panic (makeslice: len out of range / index out of range) — a
+// runtime.Error that the readers' recover handler deliberately re-panics.
+func ruleTaintSize(c *Ctx, rule string, shorts ...string) {
+	var fns []*ssa.Function
+	for _, short := range shorts {
+		fns = append(fns, srcFuncs(c.SPkgs[c.pkg(short).PkgPath])...)
+	}
+	inSet := map[*ssa.Function]bool{}
+	for _, f := range fns {
+		inSet[f] = true
+	}
+	tainted := map[ssa.Value]bool{}
+	retTainted := map[*ssa.Function]bool{}
+	isInt := func(t types.Type) bool {
+		b, ok := t.Underlying().(*types.Basic)
+		return ok && b.Info()&types.IsInteger != 0
+	}
+	for changed := true; changed; {
+		changed = false
+		mark := func(v ssa.Value) {
+			if v != nil && !tainted[v] {
+				tainted[v] = true
+				changed = true
+			}
+		}
+		for _, f := range fns {
+			for _, b := range f.Blocks {
+				for _, ins := range b.Instrs {
+					switch x := ins.(type) {
+					case *ssa.Call:
+						g := x.Call.StaticCallee()
+						if g != nil && g.Pkg != nil && g.Pkg.Pkg.Path() == "strconv" {
+							if tup, ok := x.Type().(*types.Tuple); ok && tup.Len() >= 1 && isInt(tup.At(0).Type()) {
+								if e := extractOf(x, 0); e != nil {
+									mark(e)
+								}
+							} else if isInt(x.Type()) {
+								mark(x)
+							}
+						}
+						if g != nil && inSet[g] {
+							if retTainted[g] && isInt(x.Type()) {
+								mark(x)
+							}
+							for i, a := range x.Call.Args {
+								if tainted[a] && i < len(g.Params) {
+									mark(g.Params[i])
+								}
+							}
+						}
+					case *ssa.Convert:
+						if tainted[x.X] && isInt(x.Type()) {
+							mark(x)
+						}
+					case *ssa.BinOp:
+						switch x.Op {
+						case token.ADD, token.SUB, token.MUL, token.QUO, token.SHL:
+							if tainted[x.X] || tainted[x.Y] {
+								mark(x)
+							}
+						}
+					case *ssa.Phi:
+						for _, e := range x.Edges {
+							if tainted[e] {
+								mark(x)
+							}
+						}
+					case *ssa.Return:
+						for _, r := range x.Results {
+							if tainted[r] && !retTainted[f] {
+								retTainted[f] = true
+								changed = true
+							}
+						}
+					}
+				}
+			}
+		}
+	}
+	bounded := func(v ssa.Value, at *ssa.BasicBlock) bool {
+		lower, upper := false, false
+		for _, bf := range branchesAt(at) {
+			var op token.Token
+			var other ssa.Value
+			switch {
+			case bf.cond.X == v:
+				op, other = effectiveOp(bf, true), bf.cond.Y
+			case bf.cond.Y == v:
+				op, other = effectiveOp(bf, false), bf.cond.X
+			default:
+				continue
+			}
+			_ = other
+			switch op {
+			case token.GEQ, token.GTR:
+				lower = true
+			case token.LSS, token.LEQ:
+				upper = true
+			case token.EQL:
+				lower, upper = true, true
+			}
+		}
+		return lower && upper
+	}
+	n := 0
+	for _, f := range fns {
+		for _, b := range f.Blocks {
+			for _, ins := range b.Instrs {
+				var uses []ssa.Value
+				what := ""
+				switch x := ins.(type) {
+				case *ssa.MakeSlice:
+					uses, what = []ssa.Value{x.Len, x.Cap}, "make() size"
+				case *ssa.MakeMap:
+					uses, what = []ssa.Value{x.Reserve}, "make(map) size hint"
+				case *ssa.MakeChan:
+					uses, what = []ssa.Value{x.Size}, "make(chan) size"
+				case *ssa.Slice:
+					uses, what = []ssa.Value{x.Low, x.High, x.Max}, "slice bound"
+				case *ssa.IndexAddr:
+					uses, what = []ssa.Value{x.Index}, "index"
+				}
+				for _, u := range uses {
+					if u == nil || !tainted[u] {
+						continue
+					}
+					n++
+					c.Funcs[funcName(f)] = true
+					key := fmt.Sprintf("%s/parsed-number-as-%s#%d", funcName(f), what, n)
+					if bounded(u, b) {
+						c.ok(rule, key, ins.Pos(), "the parsed value is bounded below and above by dominating comparisons")
+					} else {
+						c.bad(rule, key, ins.Pos(), "a number parsed from the input is used as a "+what+" without having been bounded on both sides: a negative or huge column value makes the runtime panic (a runtime.Error, which the reader's recover handler re-panics) instead of producing a parse error")
+					}
+				}
+			}
+		}
+	}
+	if n == 0 {
+		c.triv(rule, "featio/no-parsed-number-sizes-anything", token.NoPos, fmt.Sprintf("%d parsed integer values tracked; none reaches a make() size, slice bound or index", len(tainted)))
+	}
+}
+
+// pointerAppended: the address v (an Alloc) is passed to append as an element.
+func pointerAppended(v ssa.Value) bool {
+	refs := v.Referrers()
+	if refs == nil {
+		return false
+	}
+	for _, r := range *refs {
+		switch x := r.(type) {
+		case *ssa.Store:
+			// stored into the backing array of a variadic append ([]*T{v}...)
+			if x.Val == v {
+				if ia, ok := x.Addr.(*ssa.IndexAddr); ok {
+					if _, ok := ia.X.(*ssa.Alloc); ok {
+						return true
+					}
+				}
+				if _, ok := x.Addr.(*ssa.IndexAddr); ok {
+					return true
+				}
+			}
+		case *ssa.Phi:
+			if pointerAppended(x) {
+				return true
+			}
+		}
+	}
+	return false
+}
+
+func pointerSourceHeld(v ssa.Value, depth int) bool {
+	if depth > 4 {
+		return false
+	}
+	switch x := v.(type) {
+	case *ssa.IndexAddr:
+		return true
+	case *ssa.Alloc:
+		return x.Heap && pointerAppended(x)
+	case *ssa.Phi:
+		for _, e := range x.Edges {
+			if pointerSourceHeld(e, depth+1) {
+				return true
+			}
+		}
+	case *ssa.UnOp:
+		// a pointer loaded from a list element
+		if x.Op == token.MUL {
+			if _, ok := x.X.(*ssa.IndexAddr); ok {
+				return true
+			}
+		}
+	}
+	return false
+}
+
+// ---- qtravel: qualities move with their letters ---------------------------------
+
+// ruleQTravel: in RevComp/Reverse of the quality-carrying sequence types,
+// whenever the letter field L of an element is stored, the quality field Q of
+// an element is stored too (or whole elements are swapped): qualities travel
+// with their letters.
+func ruleQTravel(c *Ctx, rule string, targets [][2]string) {
+	for _, t := range targets {
+		fn := c.fn(t[0], t[1])
+		key := funcName(fn) + "/Q-stored-wherever-L-is"
+		fields := map[string]token.Pos{}
+		whole := false
+		for _, b := range fn.Blocks {
+			for _, ins := range b.Instrs {
+				st, ok := ins.(*ssa.Store)
+				if !ok {
+					continue
+				}
+				switch a := st.Addr.(type) {
+				case *ssa.FieldAddr:
+					if ia, ok := a.X.(*ssa.IndexAddr); ok {
+						_ = ia
+						if isNamed(a.X.Type().Underlying().(*types.Pointer).Elem(), modPath+"/alphabet", "QLetter") {
+							name, _ := anyFieldName(a)
+							fields[name] = st.Pos()
+						}
+					}
+				case *ssa.IndexAddr:
+					if pt, ok := a.Type().Underlying().(*types.Pointer); ok {
+						el := pt.Elem()
+						if sl, ok := el.Underlying().(*types.Slice); ok {
+							el = sl.Elem() // a whole column of quality letters
+						}
+						if isNamed(el, modPath+"/alphabet", "QLetter") {
+							whole = true
+						}
+					}
+				}
+			}
+		}
+		_, hasL := fields["L"]
+		_, hasQ := fields["Q"]
+		switch {
+		case hasL && !hasQ:
+			c.bad(rule, key, fields["L"], "the letters of the elements are rewritten field by field but their quality scores are never stored: after the reversal each letter carries the quality of the letter that used to be at its new position")
+		case hasL || whole:
+			c.ok(rule, key, fn.Pos(), "quality scores are stored together with the letters (field-wise or as whole elements)")
+		default:
+			c.und(rule, key, fn.Pos(), "the method stores no QLetter element; idiom not understood")
+		}
+	}
+}
+
+// ---- tablefill: loops that fill a lookup table cover the whole table -------------
+
+// tableLen: number of entries of the table behind an IndexAddr base, if it
+// is an array or a slice made with a constant length in fn.
+func tableLen(base ssa.Value, fn *ssa.Function) (int64, bool) {
+	if pt, ok := base.Type().Underlying().(*types.Pointer); ok {
+		if arr, ok := pt.Elem().Underlying().(*types.Array); ok {
+			return arr.Len(), true
+		}
+	}
+	switch x := base.(type) {
+	case *ssa.MakeSlice:
+		return constIntVal(x.Len)
+	case *ssa.UnOp:
+		if x.Op == token.MUL {
+			if fa, ok := x.X.(*ssa.FieldAddr); ok {
+				// a slice-typed field: look for the make() stored into it in this function
+				for _, b := range fn.Blocks {
+					for _, ins := range b.Instrs {
+						if st, ok := ins.(*ssa.Store); ok {
+							if f2, ok := st.Addr.(*ssa.FieldAddr); ok && f2.Field == fa.Field && types.Identical(f2.X.Type(), fa.X.Type()) {
+								switch mk := st.Val.(type) {
+								case *ssa.MakeSlice:
+									return constIntVal(mk.Len)
+								case *ssa.Slice: // make with constant size: new [N]T; slice [:N]
+									return tableLen(mk, fn)
+								}
+							}
+						}
+					}
+				}
+				// composite literal &T{f: make(...)} stores through the fresh object
+			}
+		}
+	case *ssa.Slice:
+		if x.Low == nil {
+			if x.High == nil {
+				return tableLen(x.X, fn)
+			}
+			return constIntVal(x.High)
+		}
+	}
+	return 0, false
+}
+
+// ruleTableFill: in the alphabet constructors, a loop whose counter indexes
+// a fixed-size lookup table (stores table[i] = ...) runs over the whole
+// table: its bound equals the table's length. A narrower bound leaves the
+// upper entries with their zero value — index 0 ("valid letter a") for bytes
+// that must be invalid, or an unflagged complement entry.
+func ruleTableFill(c *Ctx, rule string, names ...string) {
+	for _, name := range names {
+		fn := c.fn("alphabet", name)
+		loops := naturalLoops(fn)
+		n := 0
+		seen := map[*ssa.Phi]bool{}
+		for _, b := range fn.Blocks {
+			for _, ins := range b.Instrs {
+				st, ok := ins.(*ssa.Store)
+				if !ok {
+					continue
+				}
+				ia, ok := st.Addr.(*ssa.IndexAddr)
+				if !ok {
+					continue
+				}
+				phi, a, ok := linearIn(ia.Index)
+				if !ok {
+					continue
+				}
+				N, ok := tableLen(ia.X, fn)
+				if !ok || N < 2 {
+					continue
+				}
+				head := phi.Block()
+				var drive *ssaLoop
+				for _, lp := range loops {
+					if lp.head == head {
+						drive = lp
+					}
+				}
+				if drive == nil || seen[phi] {
+					continue
+				}
+				ifi, ok := head.Instrs[len(head.Instrs)-1].(*ssa.If)
+				if !ok {
+					continue
+				}
+				bo, ok := ifi.Cond.(*ssa.BinOp)
+				if !ok || bo.Op != token.LSS {
+					continue
+				}
+				cphi, d, ok := linearIn(bo.X)
+				if !ok || cphi != phi {
+					continue
+				}
+				// the bound
+				var B int64
+				okB := false
+				if k, isK := constIntVal(bo.Y); isK {
+					B, okB = k, true
+				} else if lc := builtinCall(bo.Y, "len"); lc != nil {
+					B, okB = tableLen(lc.Call.Args[0], fn)
+				}
+				var s0 int64
+				found := false
+				for i, p := range head.Preds {
+					if !drive.body[p] {
+						if k, ok := constIntVal(phi.Edges[i]); ok {
+							s0, found = k, true
+						}
+					}
+				}
+				if !okB || !found {
+					continue
+				}
+				seen[phi] = true
+				n++
+				first, last := s0+a, B-1-d+a
+				key := fmt.Sprintf("alphabet.%s/table-fill-loop#%d", name, n)
+				if first == 0 && last == N-1 {
+					c.ok(rule, key, st.Pos(), fmt.Sprintf("the loop writes entries 0..%d of a %d-entry table", last, N))
+				} else {
+					c.bad(rule, key, st.Pos(), fmt.Sprintf("the loop writes entries %d..%d of a %d-entry table: the remaining entries keep their zero value (index 0 / unflagged) although they must be marked invalid", first, last, N))
+				}
+			}
+		}
+		if n == 0 {
+			c.und(rule, "alphabet."+name+"/table-fill-loop", fn.Pos(), "no counter-indexed table fill found")
+		}
+	}
 }
